@@ -443,6 +443,14 @@ func (m *Manager) addTCPConnection(allocation *Allocation, conn net.Conn) (proto
 	m.lock.Lock()
 	defer m.lock.Unlock()
 
+	// The allocation may have expired, or been deleted, while the peer was
+	// being dialled or accepted: nothing may be attached to it any more.
+	select {
+	case <-allocation.closed:
+		return 0, ErrTCPConnectionTimeoutOrFailure
+	default:
+	}
+
 	for _, a := range m.allocations {
 		if _, ok := a.tcpConnections[connectionID]; ok {
 			return 0, errFailedToGenerateConnectionID
